@@ -44,3 +44,74 @@ Ltac leaf_pows :=
          end.
 
 Ltac leaf_auto := cbv beta zeta; intros; leaf_records; leaf_unfold; leaf_norm; leaf_pows; leaf_split; leaf_close.
+
+(** ---- second generation: conditions nested in conditions, f64 inputs, records on the model side ----
+    (used by LeafStallP / LeafRecovP / LeafCfgP; the tactics above are unchanged) *)
+From Coq Require Import Floats.
+From Srtla Require Select.
+
+(* f64 atoms stay folded: comparisons / casts of an f64 *input* are opaque booleans / integers shared by both
+   sides; casts of *closed* f64 terms are computed by [leaf_compute] once the conditions are split. *)
+(* [lazy], not [cbv]: a projection of a record update must not evaluate the fields it drops (call-by-value
+   copies every conditional of the updated record into each of its fields, exponentially in the nesting). *)
+Ltac leaf_unfold2 :=
+  lazy beta iota zeta delta -[Z.add Z.sub Z.mul Z.opp Z.leb Z.ltb Z.eqb Z.geb Z.gtb Z.max Z.min Z.div Z.modulo
+                             Z.quot Z.rem Z.pow Z.shiftl Z.shiftr Z.land Z.lor negb andb orb Z.le Z.lt Z.ge Z.gt
+                             Select.f64_as_u64 Select.f64_as_i32 Select.f64_of_i32 Select.f64_of_u64
+                             Select.f64_max Select.f64_min
+                             PrimFloat.ltb PrimFloat.leb PrimFloat.eqb PrimFloat.add PrimFloat.sub
+                             PrimFloat.mul PrimFloat.div PrimFloat.opp].
+
+Ltac leaf_no_cond b :=
+  lazymatch b with
+  | context [if _ then _ else _] => fail
+  | context [match _ with Some _ => _ | None => _ end] => fail
+  | _ => idtac
+  end.
+Ltac leaf_under_negb b k :=
+  lazymatch b with negb ?c => leaf_under_negb c k | true => fail | false => fail | _ => k b end.
+
+Ltac leaf_is_pos p := lazymatch p with xH => idtac | xO ?q => leaf_is_pos q | xI ?q => leaf_is_pos q end.
+Ltac leaf_is_Zlit z := lazymatch z with Z0 => idtac | Zpos ?p => leaf_is_pos p | Zneg ?p => leaf_is_pos p end.
+(* closed integer subterms the arithmetic closer does not know (f64 round trips, truncating division);
+   only closed ones: computing an open term is expensive and useless *)
+Ltac leaf_closed t := match t with context [?x] => is_var x; fail 1 | _ => idtac end.
+Ltac leaf_compute :=
+  repeat match goal with
+         | |- context [Select.f64_as_i32 ?t] =>
+             leaf_closed t; let v := eval cbv in (Select.f64_as_i32 t) in leaf_is_Zlit v; change (Select.f64_as_i32 t) with v
+         | |- context [Select.f64_as_u64 ?t] =>
+             leaf_closed t; let v := eval cbv in (Select.f64_as_u64 t) in leaf_is_Zlit v; change (Select.f64_as_u64 t) with v
+         | |- context [Z.quot ?a ?b] =>
+             leaf_closed a; leaf_closed b; let v := eval cbv in (Z.quot a b) in leaf_is_Zlit v; change (Z.quot a b) with v
+         end.
+
+(* innermost conditions first (a condition that itself contains a conditional is split after that one),
+   and [negb c] is split on [c], so that [if c then a else b] and [if negb c then b else a] share the case;
+   closed f64 / truncating-division subterms are computed as soon as the split makes them closed, so that the
+   conditions they occur in become the same term on both sides *)
+Ltac leaf_split2 :=
+  repeat (match goal with
+          | |- context [match ?x with Some _ => _ | None => _ end] => leaf_no_cond x; destruct x eqn:?
+          | |- context [if ?b then _ else _] => leaf_no_cond b; leaf_under_negb b ltac:(fun c => destruct c eqn:?)
+          end; cbn [negb andb orb]; lazy beta iota; leaf_compute).
+
+Ltac leaf_eq2 :=
+  lazymatch goal with
+  | |- @eq Z _ _ => first [ reflexivity | lia ]
+  | |- @eq bool _ _ => first [ reflexivity | lia | congruence ]
+  | |- _ /\ _ => split; leaf_eq2
+  | |- ?f _ = ?g _ => first [ reflexivity | (f_equal; leaf_eq2) | congruence ]
+  | |- _ => first [ reflexivity | lia | congruence ]
+  end.
+Ltac leaf_close2 := first [ reflexivity | exfalso; lia | exfalso; congruence | leaf_eq2 ].
+
+Ltac leaf_hyps :=
+  repeat match goal with
+         | H : _ /\ _ |- _ => destruct H
+         end;
+  subst.
+
+Ltac leaf_auto2 :=
+  cbv beta zeta; intros; leaf_records; leaf_hyps; leaf_unfold2; cbn [negb andb orb]; leaf_norm; leaf_pows;
+  leaf_split2; leaf_compute; leaf_close2.
